@@ -21,6 +21,38 @@ from engine.oracles import recon as RC
 from checks import dp_common as D
 
 SUPER = ("base_spfs", "ext_spfs", "base_uspfs", "superdtl")
+
+# --- observer of the unordered solvers' shared state (property C03 'state': lca_sets / gain_sets must not be mutated by decoding).
+# No source hook: the two constructors are module attributes, rebound here to remember what they returned.
+import superrec2.compute.unordered_super_reconciliation as _U
+
+_WATCH = []
+
+
+def _watching(fn):
+    def wrapper(*a, **k):
+        res = fn(*a, **k)
+        _WATCH.append((fn.__name__.lstrip("_").replace("compute_", ""), res, {n: frozenset(v) for n, v in res.items()}))
+        return res
+    wrapper.__name__ = fn.__name__
+    wrapper.__wrapped__ = fn
+    return wrapper
+
+
+if not hasattr(_U._compute_gain_sets, "__wrapped__"):
+    _U._compute_gain_sets = _watching(_U._compute_gain_sets)
+    _U._compute_lca_sets = _watching(_U._compute_lca_sets)
+
+
+def shared_state_changes():
+    """Entries of gain_sets / lca_sets that differ from what their constructor returned; clears the record."""
+    out = []
+    for what, live, snap in _WATCH:
+        for node, before in snap.items():
+            if frozenset(live[node]) != before:
+                out.append(f"{what}[{node.name}] was {sorted(before)} when computed and is {sorted(live[node])} after the solver returned")
+    del _WATCH[:]
+    return out
 BASE = ("base_spfs", "base_uspfs", "lca")
 
 
@@ -187,11 +219,15 @@ def concrete_failures(desc, algo, policy, costs, flags, inplace=False):
     need = bool({"opt", "empty"} & set(flags))
     forms = oracle_forms(orc, algo, need)
     inp = build_inplace(case, algo, costs) if inplace else case.build(costs)
+    del _WATCH[:]
     try:
         res = D.run_algo(algo, inp, policy)
     except Exception as e:
         return [("exception", f"{type(e).__name__}: {e}")]
     fails = []
+    changed = shared_state_changes()
+    if changed and "valid" in flags:
+        fails.append(("state", changed[0]))
     if forms is None:
         forms = []
         flags = set(flags) - {"opt", "empty"}
@@ -312,6 +348,7 @@ def explore(prop, desc, algo, policy, sym, fixed, flags, max_paths=20000, budget
         return ok
 
     for _ in ctx.paths():
+        del _WATCH[:]
         try:
             res = D.run_algo(algo, inp, policy)
         except Exception as e:
@@ -319,6 +356,10 @@ def explore(prop, desc, algo, policy, sym, fixed, flags, max_paths=20000, budget
             viol("exception", f"{type(e).__name__}: {e}")
             continue
         ob(True)
+        if "valid" in flags and algo in ("base_uspfs", "superdtl"):
+            changed = shared_state_changes()
+            if not ob(not changed):
+                viol("state", "the solver changed its shared family sets while decoding: " + changed[0])
         if not res:
             if "empty" in flags:
                 # empty is right only if no oracle form is finite on this path
@@ -451,9 +492,12 @@ def generic_worker(item):
 
 # ----------------------------------------------------------------------------- input spaces (labelled)
 def random_super_input(rng, no, ns, nf, ordered, rootsyn_p=0.0, consistent_p=0.8):
-    d = D.random_plain_input(rng, no, ns)
-    fams = "abcdef"[:nf]
-    d["leafsyn"] = D.random_syntenies(rng, sorted(d["leafmap"]), fams, ordered, consistent_p)
+    if rng.random() < 0.5:
+        d = clade_family_input(rng, no, ns, nf, ordered)       # families planted on clades (gains below the root)
+    else:
+        d = D.random_plain_input(rng, no, ns)
+        fams = "abcdef"[:nf]
+        d["leafsyn"] = D.random_syntenies(rng, sorted(d["leafmap"]), fams, ordered, consistent_p)
     if ordered and rng.random() < rootsyn_p:
         used = sorted(set(g for s in d["leafsyn"].values() for g in s))
         from engine.oracles.trees import OTree
@@ -464,6 +508,37 @@ def random_super_input(rng, no, ns, nf, ordered, rootsyn_p=0.0, consistent_p=0.8
             if rng.random() < 0.4:
                 # the prescribed root is a common SUPERsequence of the leaves: it may hold a family that no leaf carries
                 d["rootsyn"].insert(rng.randrange(len(d["rootsyn"]) + 1), "x")
+    return d
+
+
+def clade_family_input(rng, no, ns, nf, ordered=False):
+    """Families planted on clades: each family picks an internal object node as its gain node and is carried by leaves on both sides of it
+    (so gains happen below the root as often as at the root, which independent per-leaf sampling almost never produces)."""
+    d = D.random_plain_input(rng, no, ns)
+    from engine.oracles.trees import OTree
+    O = OTree(H.totuple(d["ot"]), "o")
+    fams = [chr(ord("a") + i) for i in range(nf)]
+    syn = {O.name[l]: [] for l in O.leaves}
+    for f in fams:
+        if not O.internals:
+            break
+        g = rng.choice(O.internals)
+        sides = [[l for l in O.subtree(c) if not O.children[l]] for c in O.children[g]]
+        carriers = set()
+        for side in sides:
+            k = rng.randint(1, len(side))
+            carriers.update(rng.sample(side, k))
+        for l in carriers:
+            syn[O.name[l]].append(f)
+    for l in syn:
+        if not syn[l]:
+            syn[l].append(rng.choice(fams))
+    if ordered:
+        order = fams[:]
+        rng.shuffle(order)
+        d["leafsyn"] = {l: [f for f in order if f in v] for l, v in syn.items()}
+    else:
+        d["leafsyn"] = {l: sorted(v) for l, v in syn.items()}
     return d
 
 
